@@ -24,6 +24,7 @@ func scripted(en *tl.Engine) {
 			en.Timeouts(n, q)
 			en.TaskKinds(n, q, 3)
 			en.Reentrant(n, q)
+			en.DropHandle(n, q)
 			for k := 0; k < 4; k++ {
 				en.CancelInsidePush(n, q, k, k%2 == 1)
 			}
@@ -52,6 +53,11 @@ func timeoutrace(en *tl.Engine) {
 		en.TimeoutRaces(c[0], c[1], reps)
 	}
 	en.RequireTimeoutRace()
+	// volume: one worker goroutine handles far more than 2^16 tasks
+	en.Volume(1, 3, 70000)
+	if en.E.Thorough() {
+		en.Volume(2, 1, 300000)
+	}
 }
 
 func stress(en *tl.Engine) {
